@@ -1157,6 +1157,17 @@ fn run_sm_once(c: &Value) -> RunResult {
     }
 }
 
+fn j_short(ev: &StateMachineEvent) -> &'static str {
+    match ev {
+        StateMachineEvent::StateChange(_) => "state change",
+        StateMachineEvent::ScheduleChange(_) => "schedule change",
+        StateMachineEvent::ProtocolStateChange(_) => "protocol state change",
+        StateMachineEvent::UpdateCheckResult(_) => "update check result",
+        StateMachineEvent::InstallProgressChange(_) => "install progress",
+        StateMachineEvent::OmahaServerResponse(_) => "server response",
+        StateMachineEvent::InstallerError(_) => "installer error",
+    }
+}
 fn drive(c: &Value, world: W) -> bool {
     let cfg = {
         let mut cfg = config_of(&c["config"]);
@@ -1166,15 +1177,19 @@ fn drive(c: &Value, world: W) -> bool {
     let apps: Vec<App> = arr(c, "apps").iter().map(app_of).collect();
     let cup_handler = cfg.omaha_public_keys.as_ref().map(StandardCupv2Handler::new);
     let clock = Clock(world.clone());
+    // storage and app set are shared with the embedder by construction: the harness, as an observer, looks at them
+    // whenever it takes an event
+    let store_rc = std::rc::Rc::new(futures::lock::Mutex::new(Store { w: world.clone() }));
+    let apps_rc = std::rc::Rc::new(futures::lock::Mutex::new(VecAppSet::new(apps)));
     let builder = StateMachineBuilder::new(
         Pol { w: world.clone(), ts: clock },
         Http { w: world.clone() },
         Inst { w: world.clone() },
         Tim { w: world.clone() },
         Met { w: world.clone() },
-        std::rc::Rc::new(futures::lock::Mutex::new(Store { w: world.clone() })),
+        store_rc.clone(),
         cfg,
-        std::rc::Rc::new(futures::lock::Mutex::new(VecAppSet::new(apps))),
+        apps_rc.clone(),
         cup_handler,
     );
     let flag = Arc::new(Flag(AtomicBool::new(false)));
@@ -1250,8 +1265,13 @@ fn drive(c: &Value, world: W) -> bool {
             Poll::Ready(Some(ev)) => {
                 let (g, j) = g_event_sm(&ev);
                 let is_result = matches!(ev, StateMachineEvent::UpdateCheckResult(_));
+                let (store_free, apps_free) = (store_rc.try_lock().is_some(), apps_rc.try_lock().is_some());
                 {
                     let mut w = world.lock().unwrap();
+                    if !store_free || !apps_free {
+                        w.violate(&format!("the shared {} is locked while an event is handed over ({}): an observer that uses it between polls would block the flow for ever",
+                                           if !store_free { "storage" } else { "app set" }, j_short(&ev)));
+                    }
                     match &ev {
                         StateMachineEvent::StateChange(State::CheckingForUpdates(_)) => w.in_check = true,
                         StateMachineEvent::UpdateCheckResult(_) => w.in_check = false,
